@@ -270,6 +270,8 @@ def match_known(pid, message):
 # ----------------------------------------------------------------------------- evidence
 
 def write_evidence(pid, tier, seed, coverage, wall, violations, assumptions):
+    if os.environ.get("HV_DEV_NO_PROOF"):
+        return          # development runs (proof side skipped) never write evidence
     os.makedirs(EVIDENCE, exist_ok=True)
     ev = {"property_id": pid, "tier": tier, "seed": seed, "level": "proof", "coverage": coverage,
           "assumptions": assumptions, "wall_s": round(wall, 2), "violations": violations}
